@@ -18,9 +18,11 @@ fn gen_recs(rng: &mut Rng, fastq: bool) -> Vec<Rec> {
     };
     (0..n)
         .map(|i| {
-            let len = match rng.below(12) {
+            let len = match rng.below(14) {
                 0 => 0,
                 1 => rng.usize(1000, 5000),
+                // lengths at and around typical reader buffer sizes (a line ending exactly at a buffer boundary)
+                2 => *rng.pick(&[8190usize, 8191, 8192, 8193, 16383, 16384, 65535, 65536, 65537]),
                 _ => gen_len(rng, 5, None, 300),
             };
             let len = if fastq { len.max(1) } else { len };
@@ -234,11 +236,16 @@ pub fn cli_rows(ctx: &Ctx) -> Stats {
         let sc = Scratch::new(ctx, "c06c");
         let path = materialise(&fc, &sc, &mut rng);
         let outp = sc.path("out.kmers");
-        let counts = rng.chance(1, 2);
-        let mut args = sv(&["comp", "oligo", "-i", &path, "-o", &outp, "-k", "3"]);
-        if counts {
-            args.push("-c".into());
-        }
+        // "row count of any subcommand run on the file": rotate through the record-oriented subcommands
+        let which = idx % 5;
+        let (args, result_file) = match which {
+            0 => (sv(&["comp", "oligo", "-i", &path, "-o", &outp, "-k", "3"]), outp.clone()),
+            1 => (sv(&["comp", "oligo", "-i", &path, "-o", &outp, "-k", "4", "-c"]), outp.clone()),
+            2 => (sv(&["comp", "cgr", "-i", &path, "-o", &outp, "-k", "3"]), outp.clone()),
+            3 => (sv(&["cov", "-i", &path, "-o", &outp, "-k", "7", "-s", "5", "-c", "5"]), format!("{}/kmers.vectors", outp)),
+            _ => (sv(&["min", "-i", &path, "-o", &outp, "-m", "7", "-w", "12", "-p", "s2m"]), outp.clone()),
+        };
+        st.class(["rows:oligo", "rows:oligo -c", "rows:cgr -k", "rows:cov", "rows:min s2m"][which as usize]);
         st.case(true, mix(idx) ^ hash_bytes(&std::fs::read(&path).unwrap_or_default()));
         let res = run_cli(ctx, &args, None, &CliLimits::default());
         let case = || fc.json().set("argv", Json::s(args.join(" ")));
@@ -250,7 +257,7 @@ pub fn cli_rows(ctx: &Ctx) -> Stats {
             st.violate("cli.reader.exit", format!("[{}] comp oligo failed: {}", fc.describe(), res.describe()), case());
             return;
         }
-        let rows = lines(&std::fs::read(&outp).unwrap_or_default()).len();
+        let rows = lines(&std::fs::read(&result_file).unwrap_or_default()).len();
         if rows != fc.recs.len() {
             let multi = matches!(fc.gz, Some(GzLayout::Multi(_)) | Some(GzLayout::Bgzf));
             let sig = if multi && rows < fc.recs.len() { "cli.reader.gz.multimember" } else { "cli.reader.rowcount" };
